@@ -52,7 +52,13 @@ type vmInfo struct {
 	thread     int
 	afterAbort int
 	steps      int
+	lastPoint  int
+	sincePoint int
 }
+
+// every dispatched instruction is preceded by the atomic load of the abort flag (a scheduling point);
+// a VM that dispatches this many instructions without reaching one no longer polls the flag on that path
+const maxStepsBetweenPoints = 100000
 
 type world struct {
 	s         *vsched.Sched
@@ -118,6 +124,14 @@ func (h harness) Start(s *vsched.Sched) vsched.World {
 			}
 			if v.VerifAborting() != 0 {
 				info.afterAbort++
+			}
+			if n := s.ThreadSteps(info.thread); n != info.lastPoint {
+				info.lastPoint, info.sincePoint = n, 0
+			}
+			info.sincePoint++
+			if info.sincePoint > maxStepsBetweenPoints {
+				w.problems = append(w.problems, fmt.Sprintf("the VM dispatched more than %d instructions without polling the abort flag: cancellation cannot stop this script", maxStepsBetweenPoints))
+				panic("verif: abort flag not polled")
 			}
 		})
 	}
